@@ -47,6 +47,16 @@ func stateTypeBody(s *Scanner, c byte) *jerr.JApiError {
 	case ContextOpenSign:
 		s.found(ContextOpen)
 		return nil
+	case CommentSign:
+		// A schema in the jsight notation takes the comments in front of it for
+		// itself; a regular expression begins with its delimiter, so a comment
+		// line before it is a comment of the API description (as it is before
+		// the regular expression of a response or a request).
+		if s.isDirectiveParameterHasRegexNotation() {
+			return s.startComment()
+		}
+		s.step = s.stepStack.Pop()
+		return s.step(s, c)
 	default:
 		s.step = s.stepStack.Pop()
 		return s.step(s, c)
